@@ -185,9 +185,26 @@ def Why.token : Why → String
   | .content => "C04.registry-content"
   | .broken => "C04.lookup-broken"
 
+/-- "MACs (6/8/20 bytes)": the only hardware-address lengths there are
+(`net.ParseMAC`, and the DHCP server validates the same set). -/
+def validMAC (m : MAC) : Bool := m.length == 6 || m.length == 8 || m.length == 20
+
+/-- The probe is inside the domain of the property: no hardware address of an
+impossible length is involved (neither asked for nor handed out by DHCP). -/
+def probeInScope (w : World) : Probe → Bool
+  | .mac m => validMAC m
+  | .apply _ a => match w.lease a with
+    | some m => validMAC m
+    | none => true
+  | .find id =>
+    (match id.asMAC with | some m => validMAC m | none => true) &&
+    (match id.asIP.bind w.lease with | some m => validMAC m | none => true)
+  | _ => true
+
 /-- Judge one probe. -/
 def probeFail (w : World) (p : Probe) (seen : Seen) : Option Why :=
-  if seen = .broken then some .broken
+  if !probeInScope w p then none
+  else if seen = .broken then some .broken
   else
     let want := expected w p
     if seen = want then none
